@@ -9,7 +9,7 @@ import ast
 
 from sa import fd
 from sa.model import AnalysisError, walk_no_nested, norm, mangle, call_name, is_self_call
-from sa.util import (fact_call, module_resolver, ClassGraph, fact_atom, decorator_names, self_calls, attr_calls, eq_const_fact, raise_name,
+from sa.util import (contains, fact_call, module_resolver, ClassGraph, fact_atom, decorator_names, self_calls, attr_calls, eq_const_fact, raise_name,
                      const_value, bound_arg, attr_writes)
 from sa.consteval import TOP
 from .roles import ClientRoles
@@ -363,6 +363,27 @@ def run(ctx):
             else:
                 ctx.violation("A6", tls, key, "after the TLS handshake the %s obligation is not met on every path to success"
                               % what, node=tr.ast, witness=wit)
+    # nothing but the re-read fills the map after the handshake, and a failed re-read is not passed over
+    for n in walk_no_nested(tls.node):
+        if isinstance(n, ast.Assign) and any(isinstance(t, ast.Attribute) and t.attr == cap_attr for t in n.targets):
+            v = const_value(ctx.program, tls, n.value)
+            if (v is TOP or v) and any(cfgt.path_exists(w, x, exc=True) for w in wrap_nodes for x in cfgt.nodes_for(n)):
+                ctx.violation("A6", tls, "caps-restored:%s" % norm(n.value)[:30], "after the TLS handshake the capability map is set to %s: "
+                              "what the server announced before the handshake is used afterwards" % norm(n.value)[:40], node=n,
+                              witness="the SASL mechanism is chosen from the capabilities announced before the handshake")
+    for c in self_calls(tls, capreader.name):
+        p_ = getattr(c, "_parent", None)
+        while p_ is not None and p_ is not tls.node:
+            if isinstance(p_, ast.Try) and any(contains(b_, c) for b_ in p_.body):
+                for h_ in p_.handlers:
+                    last = h_.body[-1] if h_.body else None
+                    leaves = isinstance(last, ast.Raise) or (isinstance(last, ast.Return) and const_value(ctx.program, tls, last.value) in (False, None)
+                                                               and last.value is not None)
+                    if not leaves:
+                        ctx.violation("A6", tls, "reread-failure-swallowed", "a failure of the capability re-read after the TLS handshake is "
+                                      "caught and the upgrade goes on to report success", node=h_,
+                                      witness="the session continues with an empty or pre-TLS capability map")
+            p_ = getattr(p_, "_parent", None)
     # mechanism selection reads the live map
     reads_live = any(isinstance(x, ast.Attribute) and x.attr == cap_attr for x in ast.walk(auth.node)) or any(
         any(isinstance(x, ast.Attribute) and x.attr == cap_attr for x in ast.walk(R.methods[m].node))
